@@ -202,6 +202,19 @@ def _register_subquery():
 _register_subquery()
 
 
+def _register_misc():
+    """C10/C07/C19 (bld-misc): groups column (Column.__getitem__ with the subscript primitive; src_column.py), prelude (the
+    statements of execute_select in front of the row loops; src_prelude.py) and shell2 (BQLShell.on_Select, do_run;
+    src_shell2.py)"""
+    from . import src_column, src_prelude, src_shell2
+    src_column.register(GROUPS)
+    src_prelude.register(GROUPS)
+    src_shell2.register(GROUPS)
+
+
+_register_misc()
+
+
 def generate(group):
     """Regenerate coq/Gen/Src<Group>.v from the live source; raises py2mini.Untranslatable (fail closed)."""
     fname, spec, *rest = GROUPS[group]
